@@ -174,6 +174,8 @@ def gen_multiframe(rng, big=False):
         f["pals"] = []
         f["tree"] = pl.gen_tree(rng, rng.choice([0, 1, 2]), rng.randint(1, 4), (lo, hi), nprev=0)
         f["wp"] = None
+        if rng.random() < 0.2:
+            f["tocperm"] = rng.randrange(1000)
         frames.append(f)
     return img, frames
 
